@@ -246,7 +246,7 @@ def leaf(domain):
                 st.builds(lambda n: M("HasLength", "str", n=n), st.integers(0, 4))]
     elif domain == "bytes":
         gen += [st.builds(lambda s, n: M(n, "bytes", s=s), BYTES, st.sampled_from(["Equals", "StartsWith", "EndsWith", "Contains"])),
-                st.builds(lambda p: M("MatchesRegex", "bytes", p=p, flags=0), st.sampled_from([b"a", b"a+b", b".*\xff", b"^$"])),
+                st.builds(lambda p, c: M("MatchesRegex", "bytes", p=p, flags=0, compiled=c), st.sampled_from([b"a", b"a+b", b".*\xff", b"^$"]), st.booleans()),
                 st.builds(lambda n: M("HasLength", "bytes", n=n), st.integers(0, 4))]
     elif domain == "list":
         gen += [st.builds(lambda l, n: M(n, "list", l=l), LIST, st.sampled_from(["Equals", "SameMembers", "ContainsAll"])),
@@ -263,6 +263,8 @@ def leaf(domain):
         gen += [st.builds(lambda e: M("MatchesException", "exc_info", form="type", exc=e, value_re=None), st.sampled_from(EXC_NAMES + ["Exception", "ArithmeticError"])),
                 st.builds(lambda e, r: M("MatchesException", "exc_info", form="type", exc=e, value_re=r), st.sampled_from(EXC_NAMES + ["Exception"]), st.sampled_from(["boom", "^a", ".*", "'boom'", "é"])),
                 st.builds(lambda e: M("MatchesException", "exc_info", form="instance", inst=e), EXC),
+                # value_re next to an instance: documented as consulted only when a type was given
+                st.builds(lambda e, r: M("MatchesException", "exc_info", form="instance", inst=e, value_re=r), EXC, st.sampled_from(["^zzz", "boom", ".*"])),
                 st.builds(lambda es: M("MatchesException", "exc_info", form="tuple", excs=es), st.lists(st.sampled_from(EXC_NAMES), min_size=1, max_size=2))]
     elif domain == "callable":
         gen += [st.builds(lambda: M("Raises", "callable", inner=None)),
@@ -480,6 +482,8 @@ def build(spec, env):
     if m == "MatchesStructure.fromExample":
         return tm.MatchesStructure.fromExample(Obj(**spec["ex"]), *spec["attrs"])
     if m == "MatchesException":
+        if spec["form"] == "instance" and spec.get("value_re") is not None:
+            return tm.MatchesException(EXC_CLASSES[spec["inst"]["exc"]](*spec["inst"]["args"]), spec["value_re"])
         if spec["form"] == "instance":
             return tm.MatchesException(EXC_CLASSES[spec["inst"]["exc"]](*spec["inst"]["args"]))
         if spec["form"] == "tuple":
